@@ -16,7 +16,7 @@ from ref import jwe as rjwe, b64 as rb, selftest
 LEVEL = "exploration"
 RULE = ("plaintext length n = 256000 + delta with delta in {-3..+3, 100, 255..260, 1000, ...} (placed by construction), small n, and "
         "multiples up to 64 MiB (quick) / 512 MiB (thorough) after expansion x compressibility class {constant, periodic (period 1-300), "
-        "text-like, random, random-then-zeros, zeros-then-random} x enc (8) x serialization (compact, flattened); streams produced by "
+        "text-like, random, random-then-zeros, zeros-then-random, record-like lines with one repeat length per DEFLATE length code} x enc (8) x serialization (compact, flattened); streams produced by "
         "joserfc (zip=DEF) and by the reference (raw DEFLATE levels 0-9 incl. stored blocks, zlib-framed with the default header, "
         "huge streams built chunk-wise without materialising the plaintext). Oracle: n <= 256000 -> exact plaintext; n > 256000 -> "
         "ExceededSizeError, never data; joserfc's own compressed stream is complete raw DEFLATE; tracemalloc peak during decryption stays "
